@@ -107,4 +107,43 @@ pub fn check_plans(values: &[u8], rng: &mut Rng, v: &mut Vec<Violation>, c: &mut
             break;
         }
     }
+    // the write-once register protocol: ids inside values, inside internal messages and inside a
+    // wrapped server's state are renamed; request ids and client states are left alone
+    if n > 0 {
+        use stateright::actor::write_once_register::{WORegisterActorState, WORegisterMsg};
+        let a = Id::from(rng.usize_below(n));
+        let b = Id::from(rng.usize_below(n));
+        type W = WORegisterMsg<u64, Id, (Id, Option<Id>)>;
+        let cases: Vec<(W, W)> = vec![
+            (WORegisterMsg::Internal((a, Some(b))), WORegisterMsg::Internal((map(a), Some(map(b))))),
+            (WORegisterMsg::Put(3, a), WORegisterMsg::Put(3, map(a))),
+            (WORegisterMsg::Get(4), WORegisterMsg::Get(4)),
+            (WORegisterMsg::PutOk(5), WORegisterMsg::PutOk(5)),
+            (WORegisterMsg::PutFail(6), WORegisterMsg::PutFail(6)),
+            (WORegisterMsg::GetOk(7, b), WORegisterMsg::GetOk(7, map(b))),
+        ];
+        for (x, want) in cases {
+            let got: W = x.rewrite(&plan);
+            if got != want {
+                fail("WORegisterMsg", format!("{:?} -> {:?}, expected {:?}", x, got, want));
+            }
+        }
+        type WS = WORegisterActorState<Vec<Id>, u64>;
+        let srv: WS = WORegisterActorState::Server(vec![a, b]);
+        let got: WS = srv.rewrite(&plan);
+        if got != WORegisterActorState::Server(vec![map(a), map(b)]) {
+            fail("WORegisterActorState", format!("{:?} -> {:?}", srv, got));
+        }
+        let cl: WS = WORegisterActorState::Client { awaiting: Some(9), op_count: 2 };
+        let got: WS = cl.rewrite(&plan);
+        if got != cl {
+            fail("WORegisterActorState", format!("{:?} -> {:?}", cl, got));
+        }
+        // an envelope: both endpoints and the ids inside the message
+        let env = stateright::actor::Envelope { src: a, dst: b, msg: (b, a) };
+        let got = env.rewrite(&plan);
+        if (got.src, got.dst, got.msg) != (map(a), map(b), (map(b), map(a))) {
+            fail("Envelope", format!("{:?} -> {:?}", env, got));
+        }
+    }
 }
